@@ -41,6 +41,7 @@ type Profile struct {
 	GenericAliasBoost int    // additional % of instantiated-generic interfaces declared as generic alias
 	TwinPct           int    // additional % of worlds with a build-constrained twin interface
 	HugePct           int    // % of interfaces with several hundred methods
+	ForcedGroupBoost  int    // additional % of conflict worlds with a forced group of sanitise-equal same-named packages
 	DiffAliasPct      int    // % of worlds with an extra source file importing used packages under other aliases
 	MockLikeParamPct  int    // chance (per argument) of a mock type named like a parameter of the interface
 	SameAliasPct      int    // % of aliased imports that reuse an alias another file gave to a DIFFERENT package
@@ -91,13 +92,14 @@ type tparam struct {
 }
 
 type srcFile struct {
-	Name    string
-	Imports map[*Pkg]string // alias: "" none, "." dot, "_" blank, else name
-	order   []*Pkg
-	ifaces  []*Iface
-	locals  []*Decl
-	blank   []*Pkg
-	header  string // comments in front of the package clause
+	Name         string
+	Imports      map[*Pkg]string // alias: "" none, "." dot, "_" blank, else name
+	order        []*Pkg
+	ifaces       []*Iface
+	locals       []*Decl
+	blank        []*Pkg
+	header       string // comments in front of the package clause
+	splitImports bool   // the first import gets a declaration of its own
 }
 
 // Iface is an interface of the source package that may be mocked.
@@ -223,7 +225,7 @@ var reservedStemTypes = []string{"Mock", "CallInfo", "String", "Int", "Func", "M
 var reservedStemTypesOpen = []string{"Error", "Any", "Nil", "Append", "Panic", "Len", "True", "New", "Make"}
 
 var ifaceNamePool = []string{"Store", "Service", "Repo", "Doer", "Handler", "Backend", "Api", "Thing", "Reader", "Manager", "Cache", "Queue",
-	"Worker", "Finder", "Sink", "ServerMock", "ClockMock", "Mock"}
+	"Worker", "Finder", "Sink", "ServerMock", "ClockMock", "Mock", "Überweisung", "Ärger", "Ñu"}
 var methodNamePool = []string{"ResetMissedCalls", "ResetStatsCalls", "RESET", "ReSet", "Resets", "Reset", "ResetCalls", "Calls", "String", "Error", "Ärger", "Get", "Put", "Do", "Run", "Close", "Find", "Create", "Delete", "Update", "List", "Send", "Recv", "Handle",
 	"Open", "Process", "Apply", "Check", "Load", "Save", "Visit", "Exec", "One", "Two", "Three"}
 var tparamNames = []string{"T", "K", "V", "E", "S", "U", "TT", "Elem", "TKey", "T1", "T2"}
@@ -298,7 +300,7 @@ func (g *G) genDeps() {
 	repl := strings.NewReplacer("go-", "", "-go", "", "-", "", "_", "", ".", "", "@", "", "+", "", "~", "")
 	// now and then: three packages of one name whose paths are equal after sanitising (last-resort numbered aliases)
 	var forced []string
-	if g.P.Conflict && g.Chance(10) && !g.Open["F-A"] {
+	if g.P.Conflict && g.Chance(10+g.P.ForcedGroupBoost) && !g.Open["F-A"] {
 		forced = append(forced, g.pickList([][]string{{"go-lib", "lib", "lib-go"}, {"go-x", "x", "x-go"}, {"b-c/x", "bc/x", "b_c/x"},
 			{"go-lib", "lib", "lib-go", "l-ib"}, {"go-x", "x", "x-go", "x_", "go-x-go"}, {"b-c/x", "bc/x", "b_c/x", "b.c/x"}})...)
 		if n < len(forced)+1 {
@@ -387,7 +389,17 @@ func (g *G) genDepDecls(p *Pkg) {
 	}
 	add := func(d *Decl) *Decl { d.Exported = true; p.Decls = append(p.Decls, d); return d }
 	// always one comparable struct, one int-like with String, one method interface
-	sc := add(&Decl{Name: fresh(), Cmp: true})
+	scName := ""
+	for _, o := range g.deps {
+		if o.Name == p.Name && len(o.Decls) > 0 && g.Chance(60) {
+			scName = o.Decls[0].Name // equally named packages tend to declare equally named types
+			names[scName] = true
+		}
+	}
+	if scName == "" {
+		scName = fresh()
+	}
+	sc := add(&Decl{Name: scName, Cmp: true})
 	sc.Src = fmt.Sprintf("type %s struct {\n\tA int\n\tB string\n}", sc.Name)
 	ni := add(&Decl{Name: fresh(), Cmp: true, IntLike: true, Stringer: true})
 	ni.Src = fmt.Sprintf("type %s int\n\nfunc (x %s) String() string { return \"\" }", ni.Name, ni.Name)
@@ -410,7 +422,7 @@ func (g *G) genDepDecls(p *Pkg) {
 			first := g.deps[g.Int(0, len(g.deps)-1)]
 			others = append(others, first)
 			for _, o := range g.deps {
-				if o != first && o.Name == first.Name && len(others) < 3 {
+				if o != first && o.Name == first.Name && len(others) < 5 {
 					others = append(others, o)
 				}
 			}
@@ -428,7 +440,11 @@ func (g *G) genDepDecls(p *Pkg) {
 			for _, o := range others {
 				parts = append(parts, fmt.Sprintf("%%Q{%s}%s", o.Path, o.Decls[0].Name))
 			}
-			switch g.Int(0, 2) {
+			tmpl := g.Int(0, 2)
+			if len(parts) > 3 {
+				tmpl = 0 // the one shape that mentions all of them
+			}
+			switch tmpl {
 			case 0:
 				d.Src = fmt.Sprintf("type %s interface {\n\t%s(f func(%s) (%s, error)) error\n}", d.Name, ma, strings.Join(parts[:len(parts)-1], ", "), parts[len(parts)-1])
 			case 1:
@@ -905,7 +921,7 @@ func (g *G) okParamName(n string, used map[string]bool, fold map[string]bool) bo
 }
 
 func (g *G) sig(depth int, inner bool) *Sig {
-	s := &Sig{}
+	s := &Sig{Group: g.Chance(50)}
 	maxP := g.P.MaxParams
 	if inner {
 		maxP = 2
@@ -1158,6 +1174,58 @@ func (g *G) sig(depth int, inner bool) *Sig {
 		last.T = &Ty{K: KSlice, Elem: el}
 		s.Variadic = true
 		g.label("sig:variadic")
+	}
+	if named && !inner && np >= 2 && g.Chance(10) {
+		// neighbours of one (composite) type: written as a grouped declaration they share one type object
+		i := g.Int(0, np-2)
+		if !(s.Variadic && i+1 == np-1) && s.Params[i].Name != "_" && s.Params[i+1].Name != "_" {
+			s.Params[i+1].T = s.Params[i].T
+			s.Group = true
+			g.label("sig:grouped-same-type")
+		}
+	}
+	if !inner && np >= 2 && g.Chance(6) {
+		// two equally shaped literal types over equally NAMED types of two equally named packages
+		var pa, pb *Pkg
+		var da, db *Decl
+		for i, p := range g.deps {
+			for _, o := range g.deps[i+1:] {
+				if p.Name != o.Name {
+					continue
+				}
+				for _, d1 := range p.Decls {
+					for _, d2 := range o.Decls {
+						if d1.Name == d2.Name && d1.NTParams == 0 && d2.NTParams == 0 && !d1.Constr && !d2.Constr && pa == nil {
+							pa, pb, da, db = p, o, d1, d2
+						}
+					}
+				}
+			}
+		}
+		if pa != nil {
+			i := g.Int(0, np-2)
+			j := i + 1
+			if !(s.Variadic && j == np-1) {
+				// the same shape for both: draw once, apply twice
+				shape := g.Int(0, 2)
+				mk2 := func(p *Pkg, d *Decl) *Ty {
+					n := &Ty{K: KNamed, Name: d.Name, Pkg: p, Cmp: d.Cmp}
+					switch shape {
+					case 0:
+						return &Ty{K: KFunc, Sig: &Sig{Params: []Param{{T: n}}, Results: []Param{{T: basic("error", true)}}}}
+					case 1:
+						return &Ty{K: KStruct, Fields: []Field{{Name: "V", T: n}}, Cmp: d.Cmp}
+					}
+					return &Ty{K: KMap, Key: basic("string", true), Elem: n}
+				}
+				s.Params[i].T, s.Params[j].T = mk2(pa, da), mk2(pb, db)
+				if g.usedPkgs == nil {
+					g.usedPkgs = map[*Pkg]bool{}
+				}
+				g.usedPkgs[pa], g.usedPkgs[pb] = true, true
+				g.label("sig:twin-literals-same-named-packages")
+			}
+		}
 	}
 	ctxFirst := false
 	if !inner && np >= 1 && !s.Variadic || !inner && np >= 2 {
@@ -1846,6 +1914,10 @@ func (g *G) assignFiles() {
 		g.files = append(g.files, &srcFile{Name: names[i], Imports: map[*Pkg]string{}})
 	}
 	for _, f := range g.files {
+		if g.Chance(20) {
+			f.splitImports = true
+			g.label("src:several-import-declarations")
+		}
 		if g.Chance(25) {
 			f.header = g.Pick([]string{
 				"//\n// Package doc in the bare-slash style.\n//\n",
@@ -2011,9 +2083,21 @@ func (g *G) renderSrcFile(f *srcFile) string {
 	var b strings.Builder
 	b.WriteString(f.header)
 	fmt.Fprintf(&b, "package %s\n\n", g.src.Name)
+	if f.splitImports && len(f.order) >= 2 {
+		// several import declarations in one file: a single-spec one, then a block
+		p0 := f.order[0]
+		if a := f.Imports[p0]; a != "" {
+			fmt.Fprintf(&b, "import %s %q\n\n", a, p0.Path)
+		} else {
+			fmt.Fprintf(&b, "import %q\n\n", p0.Path)
+		}
+	}
 	if len(f.order)+len(f.blank) > 0 {
 		b.WriteString("import (\n")
-		for _, p := range f.order {
+		for i, p := range f.order {
+			if i == 0 && f.splitImports && len(f.order) >= 2 {
+				continue
+			}
 			if a := f.Imports[p]; a != "" {
 				fmt.Fprintf(&b, "\t%s %q\n", a, p.Path)
 			} else {
@@ -2130,7 +2214,7 @@ func (g *G) Case() *core.Case {
 		// the source package is the PARENT directory of a dependency: <srcdir>/<x> is a package the interface mentions
 		var cs []*Pkg
 		for _, p := range g.deps {
-			if strings.Contains(p.Dir, "/") && !p.Std && lastElem(p.Dir) == p.Name {
+			if strings.Contains(p.Dir, "/") && !p.Std && lastElem(p.Dir) == p.Name && !strings.HasPrefix(p.Dir, "vendor/") {
 				par := p.Dir[:strings.LastIndex(p.Dir, "/")]
 				pn := pkgNameForDir(par)
 				ok := pn != "" && !IsKeyword(pn) && !Predeclared[pn] && (pn[0] >= 'a' && pn[0] <= 'z') && pn != p.Name
